@@ -11,6 +11,7 @@ use crate::instruction::{
 };
 
 use crate::context::Context;
+use crate::device::DisabledOptions;
 use byteorder::{ByteOrder, LittleEndian};
 use failure::{bail, Error};
 
@@ -403,6 +404,19 @@ pub fn process(
             };
             opcode |= r.number() << 4;
 
+            let index_reg = match &i {
+                IndexOps::None(r16)
+                | IndexOps::PostIncrement(r16)
+                | IndexOps::PreDecrement(r16)
+                | IndexOps::PostIncrementE(r16, _) => *r16,
+            };
+            if !constants.get_device().allow_index(index_reg) {
+                bail!(
+                    "index register {} is not available on the current device",
+                    index_reg
+                );
+            }
+
             let reg_value = |i| match i {
                 Reg16::X => 0b1100,
                 Reg16::Y => 0b1000,
@@ -441,6 +455,15 @@ pub fn process(
                     0b_1001_0101_1101_1000
                 }
             } else {
+                let form_allowed = if let Operation::Lpm = op {
+                    constants.get_device().allow(DisabledOptions::NoLpmX)
+                } else {
+                    constants.get_device().allow(DisabledOptions::NoElpmX)
+                };
+                if !form_allowed {
+                    bail!("{:?} Rd, Z(+) is not available on the current device", op);
+                }
+
                 let r = op_args[0].get_r8(constants)?;
                 opcode |= r.number() << 4;
 
